@@ -1064,3 +1064,260 @@ Proof.
   destruct Heq as [Hs Hg]. split; [symmetry; exact Hs|]. clear -Hg. induction Hg as [|a b r1 r2 (H1 & H2 & H3) _ IH']; constructor; [|exact IH'].
   split; [symmetry; exact H1|split; symmetry; assumption].
 Qed.
+
+(* ------------------------------------------------------------------ the data directories *)
+Lemma apply_disk_keeps r idx d o s g : alookup s d = Some g -> g <> 0%N -> r = true -> alookup s (apply_disk r idx d o) = Some g.
+Proof.
+  intros E Hg ->. destruct o; cbn [apply_disk]; try exact E.
+  destruct (N.eq_dec s0 s) as [->|Hn].
+  - rewrite E. destruct g; [contradiction|exact E].
+  - destruct (alookup s0 d) as [[|p]|]; [rewrite alookup_aset_other by (intros ->; contradiction); exact E|exact E|rewrite alookup_aset_other by (intros ->; contradiction); exact E].
+Qed.
+
+Lemma run_disk_keeps ops : forall idx m m' s g, run fixed true idx m ops = Some m' ->
+  alookup s (mt_disk m) = Some g -> g <> 0%N -> alookup s (mt_disk m') = Some g.
+Proof.
+  induction ops as [|o t IH]; intros idx m m' s g H E Hg; cbn [run] in H; [injection H as <-; exact E|].
+  unfold apply in H. destruct (apply_core fixed true idx (mt_core m) o) as [c'|]; [|discriminate].
+  apply (IH _ _ m' s g H); [cbn [mt_disk]; apply apply_disk_keeps; auto|exact Hg].
+Qed.
+
+Lemma restore_disk_keeps sn d s g : alookup s d = Some g -> alookup s (restore_disk sn d) = Some g.
+Proof.
+  unfold restore_disk. generalize (sn_streams sn). intros l. revert d. induction l as [|kv r IH]; intros d E; [exact E|]. cbn [fold_left]. apply IH.
+  destruct kv as [k ps]. cbn [fst]. destruct (alookup k d) eqn:E2; [exact E|]. rewrite alookup_aset_other; [exact E|]. intros ->. congruence.
+Qed.
+
+Lemma finish_disk_lookup c d s : WF (c_streams c) ->
+  alookup s (finish_disk c d) =
+  match alookup s (c_streams c) with Some st => if st_tomb st then None else alookup s d | None => alookup s d end.
+Proof.
+  intros Hw. unfold finish_disk.
+  assert (G : forall (l : list (sid * strm)) (d0 : list (sid * N)), (forall k st, In (k, st) l -> alookup k (c_streams c) = Some st) ->
+              alookup s (fold_left (fun acc kv => if st_tomb (snd kv) then aremove (fst kv) acc else acc) l d0) =
+              if existsb (fun kv => N.eqb (fst kv) s && st_tomb (snd kv)) l then None else alookup s d0).
+  { induction l as [|[k st] r IH]; intros d0 Hl; [reflexivity|]. cbn [fold_left existsb fst snd].
+    rewrite IH by (intros k0 st0 Hin; apply Hl; right; exact Hin).
+    set (ex := existsb (fun kv : N * strm => (fst kv =? s)%N && st_tomb (snd kv)) r).
+    destruct (N.eqb_spec k s) as [->|Hn]; cbn [andb orb].
+    - destruct (st_tomb st); cbn [orb]; [destruct ex; [reflexivity|apply alookup_aremove_same]|reflexivity].
+    - destruct (st_tomb st); [|reflexivity]. destruct ex; [reflexivity|]. apply alookup_aremove_other. intros ->. contradiction. }
+  rewrite G by (intros k st Hin; apply in_alookup; assumption).
+  destruct (alookup s (c_streams c)) as [st|] eqn:E.
+  - destruct (st_tomb st) eqn:Et.
+    + assert (Hex : existsb (fun kv => N.eqb (fst kv) s && st_tomb (snd kv)) (c_streams c) = true).
+      { apply existsb_exists. exists (s, st). split; [apply alookup_in; exact E|]. cbn [fst snd]. rewrite N.eqb_refl, Et. reflexivity. }
+      rewrite Hex. reflexivity.
+    + assert (Hex : existsb (fun kv => N.eqb (fst kv) s && st_tomb (snd kv)) (c_streams c) = false).
+      { apply not_true_is_false. intros H. apply existsb_exists in H. destruct H as ([k st'] & Hin & H). cbn [fst snd] in H.
+        apply andb_true_iff in H. destruct H as [Hk Ht]. apply N.eqb_eq in Hk. subst k. rewrite (in_alookup s _ st' Hw Hin) in E. congruence. }
+      rewrite Hex. reflexivity.
+  - assert (Hex : existsb (fun kv => N.eqb (fst kv) s && st_tomb (snd kv)) (c_streams c) = false).
+    { apply not_true_is_false. intros H. apply existsb_exists in H. destruct H as ([k st'] & Hin & H). cbn [fst snd] in H.
+      apply andb_true_iff in H. destruct H as [Hk _]. apply N.eqb_eq in Hk. subst k. rewrite (in_alookup s _ st' Hw Hin) in E. discriminate. }
+    rewrite Hex. reflexivity.
+Qed.
+
+(* Replay never deletes or replaces the data of a stream that exists at the end of the log:
+   whatever directory with data the server had when it stopped is still there, untouched. *)
+Theorem replay_keeps_data ops idx m0 P e s g : run fixed true idx m0 ops = Some P -> WF (mt_streams P) ->
+  alive (mt_streams P) s -> alookup s (mt_disk m0) = Some g -> g <> 0%N ->
+  alookup s (mt_disk (finish e P)) = Some g.
+Proof.
+  intros H Hw (st & E & Ht) Ed Hg. unfold finish. cbn [mt_disk]. rewrite finish_disk_lookup by exact Hw.
+  unfold mt_streams in E. rewrite E, Ht. apply (run_disk_keeps ops idx m0 P s g H Ed Hg).
+Qed.
+
+(* ... and leaves no directory behind for a stream that does not exist at the end, provided every
+   directory present at the restart names a stream of the restored state or one that a replayed
+   operation creates (which is the case for a server that had applied a prefix of the log). *)
+Definition creates (s : sid) (o : fop) : bool := match o with FCreate s' _ _ => N.eqb s' s | _ => false end.
+Definition covered (d : list (sid * N)) (c : core) (ops : list fop) : Prop :=
+  forall s, alookup s d <> None -> alookup s (c_streams c) <> None \/ existsb (creates s) ops = true.
+
+Lemma present_aset {A} s k (x : A) l : alookup s l <> None \/ s = k -> alookup s (aset k x l) <> None.
+Proof.
+  intros H. destruct (N.eq_dec s k) as [->|Hn]; [rewrite alookup_aset_same; discriminate|].
+  rewrite alookup_aset_other by exact Hn. destruct H as [H|H]; [exact H|contradiction].
+Qed.
+
+Lemma with_stream_present c k f c' s : with_stream c k f = Some c' -> alookup s (c_streams c) <> None -> alookup s (c_streams c') <> None.
+Proof.
+  unfold with_stream. destruct (alookup k (c_streams c)); [|discriminate]. destruct (f s0); [|discriminate]. intros [= <-] H.
+  cbn [c_streams]. apply present_aset. left. exact H.
+Qed.
+
+(* replay never takes a name out of the stream map, and a replayed create puts its name in *)
+Lemma keys_step_replay idx c o c' s : apply_core fixed true idx c o = Some c' ->
+  alookup s (c_streams c) <> None \/ creates s o = true -> alookup s (c_streams c') <> None.
+Proof.
+  intros H Hs.
+  destruct o as [k n reps|k|k ps ra|k ps|k ps ro|k p rr|k p rr|k p l|g coord cn ss|g cn ss|g cn|g coord|i]; cbn [apply_core creates] in *;
+    try (destruct Hs as [Hs|Hs]; [|discriminate]).
+  - destruct n as [|n]; [discriminate|]. destruct reps as [|b reps]; [discriminate|].
+    assert (Hk : alookup s (c_streams c) <> None \/ s = k) by (destruct Hs as [Hs|Hs]; [left; exact Hs|right; apply N.eqb_eq in Hs; symmetry; exact Hs]).
+    destruct (alookup k (c_streams c)) as [st|] eqn:E.
+    + destruct (true && st_tomb st); [|discriminate]. injection H as <-. cbn [add_stream remove_stream c_streams]. apply present_aset.
+      destruct Hk as [Hk| ->]; [|right; reflexivity]. destruct (N.eq_dec s k) as [->|Hn]; [right; reflexivity|left]. rewrite alookup_aremove_other by exact Hn. exact Hk.
+    + injection H as <-. cbn [add_stream c_streams]. apply present_aset. exact Hk.
+  - destruct (alookup k (c_streams c)) as [st|]; [|discriminate]. injection H as <-. cbn [c_streams]. apply present_aset. left. exact Hs.
+  - apply (with_stream_present c k _ c' s H Hs).
+  - apply (with_stream_present c k _ c' s H Hs).
+  - apply (with_stream_present c k _ c' s H Hs).
+  - unfold with_part in H. apply (with_stream_present c k _ c' s H Hs).
+  - unfold with_part in H. apply (with_stream_present c k _ c' s H Hs).
+  - unfold with_part in H. apply (with_stream_present c k _ c' s H Hs).
+  - destruct (alookup g (c_groups c)); [discriminate|]. destruct (add_member _ _ _ _ _); try discriminate. injection H as <-. exact Hs.
+  - destruct (alookup g (c_groups c)); [|discriminate]. destruct (add_member _ _ _ _ _); try discriminate. injection H as <-. exact Hs.
+  - destruct (alookup g (c_groups c)); [|discriminate]. destruct (remove_member _ _ _ _) as [g'| |]; try discriminate. injection H as <-. destruct (g_members g'); exact Hs.
+  - destruct (alookup g (c_groups c)) as [gr|]; [|discriminate]. destruct (idx <=? g_epoch (gr_g gr))%N; injection H as <-; exact Hs.
+  - injection H as <-. exact Hs.
+Qed.
+
+(* a directory appears during replay only together with its stream *)
+Lemma disk_step_replay idx d o s : alookup s (apply_disk true idx d o) <> None -> alookup s d <> None \/ creates s o = true.
+Proof.
+  destruct o; cbn [apply_disk creates]; try (intros H; left; exact H).
+  destruct (N.eqb_spec s0 s) as [->|Hn]; [intros _; right; reflexivity|]. intros H. left.
+  destruct (alookup s0 d) as [[|p]|]; [rewrite alookup_aset_other in H by (intros E; apply Hn; symmetry; exact E); exact H|exact H|
+                                      rewrite alookup_aset_other in H by (intros E; apply Hn; symmetry; exact E); exact H].
+Qed.
+
+Lemma covered_run ops : forall idx m P, run fixed true idx m ops = Some P -> covered (mt_disk m) (mt_core m) ops ->
+  forall s, alookup s (mt_disk P) <> None -> alookup s (mt_streams P) <> None.
+Proof.
+  induction ops as [|o t IH]; intros idx m P H Hc s Hs; cbn [run] in H.
+  - injection H as <-. destruct (Hc s Hs) as [H|H]; [exact H|discriminate].
+  - unfold apply in H. destruct (apply_core fixed true idx (mt_core m) o) as [c'|] eqn:E; [|discriminate].
+    apply (IH _ _ P H); [|exact Hs]. intros x Hx. cbn [mt_disk mt_core] in *.
+    destruct (disk_step_replay idx (mt_disk m) o x Hx) as [Hd|Hcr].
+    + destruct (Hc x Hd) as [Hin|Hex].
+      * left. apply (keys_step_replay idx _ o c' x E). left. exact Hin.
+      * cbn [existsb] in Hex. apply orb_true_iff in Hex. destruct Hex as [Hcr|Hex]; [left; apply (keys_step_replay idx _ o c' x E); right; exact Hcr|right; exact Hex].
+    + left. apply (keys_step_replay idx _ o c' x E). right. exact Hcr.
+Qed.
+
+Theorem replay_leaves_no_orphans ops idx m0 P e s : run fixed true idx m0 ops = Some P -> WF (mt_streams P) ->
+  covered (mt_disk m0) (mt_core m0) ops ->
+  alookup s (mt_disk (finish e P)) <> None -> alive (mt_streams P) s.
+Proof.
+  intros H Hw Hc Hs. unfold finish in Hs. cbn [mt_disk] in Hs. rewrite finish_disk_lookup in Hs by exact Hw.
+  unfold mt_streams. destruct (alookup s (c_streams (mt_core P))) as [st|] eqn:E.
+  - destruct (st_tomb st) eqn:Et; [contradiction|]. exists st. split; [exact E|exact Et].
+  - exfalso. apply (covered_run ops idx m0 P H Hc s Hs). exact E.
+Qed.
+
+(* ---- the hypothesis of the last theorem holds for the disk of a server that applied a prefix ---- *)
+Lemma run_core_of_run r ops : forall idx m m', run fixed r idx m ops = Some m' -> run_core fixed r idx (mt_core m) ops = Some (mt_core m').
+Proof.
+  induction ops as [|o t IH]; intros idx m m' H; cbn [run run_core] in *; [injection H as <-; reflexivity|].
+  unfold apply in H. destruct (apply_core fixed r idx (mt_core m) o) as [c'|]; [|discriminate]. apply (IH _ _ m') in H. exact H.
+Qed.
+
+Lemma absent_aremove {A} s k (l : list (N * A)) : alookup s (aremove k l) <> None -> alookup s l <> None /\ s <> k.
+Proof.
+  intros H. destruct (N.eq_dec s k) as [->|Hn]; [rewrite alookup_aremove_same in H; contradiction|].
+  rewrite alookup_aremove_other in H by exact Hn. split; assumption.
+Qed.
+
+Lemma with_stream_keys c k f c' s : with_stream c k f = Some c' -> (alookup s (c_streams c') <> None <-> alookup s (c_streams c) <> None).
+Proof.
+  unfold with_stream. destruct (alookup k (c_streams c)) eqn:E; [|discriminate]. destruct (f s0); [|discriminate]. intros [= <-]. cbn [c_streams].
+  destruct (N.eq_dec s k) as [->|Hn]; [rewrite alookup_aset_same, E; split; discriminate|rewrite alookup_aset_other by exact Hn; reflexivity].
+Qed.
+
+(* live: which names are in the stream map after one operation *)
+Lemma keys_step_live idx c o c' s : apply_core fixed false idx c o = Some c' ->
+  (alookup s (c_streams c') <> None <->
+   match o with
+   | FCreate k _ _ => s = k \/ alookup s (c_streams c) <> None
+   | FDelete k => s <> k /\ alookup s (c_streams c) <> None
+   | _ => alookup s (c_streams c) <> None
+   end).
+Proof.
+  intros H.
+  destruct o as [k n reps|k|k ps ra|k ps|k ps ro|k p rr|k p rr|k p l|g coord cn ss|g cn ss|g cn|g coord|i]; cbn [apply_core] in *.
+  - destruct n as [|n]; [discriminate|]. destruct reps as [|b reps]; [discriminate|]. destruct (alookup k (c_streams c)) as [st|] eqn:E; [discriminate|].
+    injection H as <-. cbn [add_stream c_streams]. destruct (N.eq_dec s k) as [->|Hn].
+    + rewrite alookup_aset_same. split; [intros _; left; reflexivity|discriminate].
+    + rewrite alookup_aset_other by exact Hn. split; [intros H; right; exact H|intros [H|H]; [contradiction|exact H]].
+  - destruct (alookup k (c_streams c)) as [st|]; [|discriminate]. injection H as <-. cbn [remove_stream c_streams]. split.
+    + intros H. apply absent_aremove in H. destruct H. split; assumption.
+    + intros [Hn H]. rewrite alookup_aremove_other by exact Hn. exact H.
+  - apply (with_stream_keys c k _ c' s H).
+  - apply (with_stream_keys c k _ c' s H).
+  - apply (with_stream_keys c k _ c' s H).
+  - unfold with_part in H. apply (with_stream_keys c k _ c' s H).
+  - unfold with_part in H. apply (with_stream_keys c k _ c' s H).
+  - unfold with_part in H. apply (with_stream_keys c k _ c' s H).
+  - destruct (alookup g (c_groups c)); [discriminate|]. destruct (add_member _ _ _ _ _); try discriminate. injection H as <-. reflexivity.
+  - destruct (alookup g (c_groups c)); [|discriminate]. destruct (add_member _ _ _ _ _); try discriminate. injection H as <-. reflexivity.
+  - destruct (alookup g (c_groups c)); [|discriminate]. destruct (remove_member _ _ _ _) as [g'| |]; try discriminate. injection H as <-. destruct (g_members g'); reflexivity.
+  - destruct (alookup g (c_groups c)) as [gr|]; [|discriminate]. destruct (idx <=? g_epoch (gr_g gr))%N; injection H as <-; reflexivity.
+  - injection H as <-. reflexivity.
+Qed.
+
+(* on a live server a data directory exists only for a stream that exists *)
+Lemma live_disk_streams ops : forall idx m m', run fixed false idx m ops = Some m' ->
+  (forall s, alookup s (mt_disk m) <> None -> alookup s (mt_streams m) <> None) ->
+  forall s, alookup s (mt_disk m') <> None -> alookup s (mt_streams m') <> None.
+Proof.
+  induction ops as [|o t IH]; intros idx m m' H Hm; cbn [run] in H; [injection H as <-; exact Hm|].
+  unfold apply in H. destruct (apply_core fixed false idx (mt_core m) o) as [c'|] eqn:E; [|discriminate].
+  apply (IH _ _ m' H). cbn [mt_disk mt_streams mt_core]. intros s Hs. unfold mt_streams in Hm. apply (keys_step_live idx _ o c' s E).
+  destruct o; cbn [apply_disk] in Hs; try (apply Hm; exact Hs).
+  - destruct (N.eq_dec s s0) as [->|Hn]; [left; reflexivity|right]. apply Hm.
+    destruct (alookup s0 (mt_disk m)) as [[|p]|]; [rewrite alookup_aset_other in Hs by exact Hn; exact Hs|exact Hs|rewrite alookup_aset_other in Hs by exact Hn; exact Hs].
+  - apply absent_aremove in Hs. destruct Hs as [Hs Hn]. split; [exact Hn|apply Hm; exact Hs].
+Qed.
+
+(* a stream of a later live state was there before or was created in between *)
+Lemma live_keys_origin ops : forall idx c c' s, run_core fixed false idx c ops = Some c' ->
+  alookup s (c_streams c') <> None -> alookup s (c_streams c) <> None \/ existsb (creates s) ops = true.
+Proof.
+  induction ops as [|o t IH]; intros idx c c' s H Hs; cbn [run_core] in H; [injection H as <-; left; exact Hs|].
+  destruct (apply_core fixed false idx c o) as [d|] eqn:E; [|discriminate]. destruct (IH _ d c' s H Hs) as [Hd|Hex]; [|right; cbn [existsb]; rewrite Hex; apply orb_true_r].
+  apply (keys_step_live idx c o d s E) in Hd. destruct o; try (left; exact Hd).
+  - destruct Hd as [->|Hd]; [right; cbn [existsb creates]; rewrite N.eqb_refl; reflexivity|left; exact Hd].
+  - left. apply Hd.
+Qed.
+
+Lemma restore_disk_origin sn d s : alookup s (restore_disk sn d) <> None -> alookup s d <> None \/ alookup s (sn_streams sn) <> None.
+Proof.
+  unfold restore_disk. generalize (sn_streams sn). intros l. revert d. induction l as [|[k ps] r IH]; intros d H; [left; exact H|]. cbn [fold_left fst] in H.
+  destruct (IH _ H) as [Hd|Hr].
+  - destruct (alookup k d) eqn:E; [left; exact Hd|]. destruct (N.eq_dec s k) as [->|Hn]; [right; cbn [alookup]; rewrite N.eqb_refl; discriminate|].
+    rewrite alookup_aset_other in Hd by exact Hn. left. exact Hd.
+  - right. cbn [alookup]. destruct (N.eqb k s); [discriminate|exact Hr].
+Qed.
+
+Lemma alookup_map_keys {A B} (f : A -> B) s (l : list (N * A)) : alookup s (map (fun kv => (fst kv, f (snd kv))) l) = option_map f (alookup s l).
+Proof. induction l as [|[k x] r IH]; [reflexivity|]. cbn [map alookup fst snd]. destruct (N.eqb k s); [reflexivity|exact IH]. Qed.
+
+Lemma In_firstn {A} (x : A) n l : In x (firstn n l) -> In x l.
+Proof. revert l. induction n as [|n IH]; intros l H; [destruct H|]. destruct l as [|y t]; [destruct H|]. cbn [firstn] in H. destruct H as [->|H]; [left; reflexivity|right; apply IH; exact H]. Qed.
+
+Theorem prefix_disk_covered ops i m Li Lm : (i <= m)%nat -> (m <= length ops)%nat ->
+  run fixed false 1 empty_meta (firstn i ops) = Some Li ->
+  run fixed false 1 empty_meta (firstn m ops) = Some Lm ->
+  covered (restore_disk (take_snapshot (mt_core Li)) (mt_disk Lm)) (restore_core fixed (take_snapshot (mt_core Li))) (skipn i ops).
+Proof.
+  intros Him Hm HLi HLm s Hs.
+  assert (Hkeys : forall x, alookup x (c_streams (mt_core Li)) <> None -> alookup x (c_streams (restore_core fixed (take_snapshot (mt_core Li)))) <> None).
+  { intros x Hx. unfold restore_core, take_snapshot. cbn [c_streams sn_streams]. rewrite map_map. cbn [fst snd].
+    rewrite (alookup_map_keys (fun st => mkStrm (map (restore_part fixed) (st_parts st)) false)). destruct (alookup x (c_streams (mt_core Li))); [discriminate|contradiction]. }
+  apply restore_disk_origin in Hs. destruct Hs as [Hd|Hsn].
+  - (* a directory left by the prefix: its stream exists after m operations *)
+    assert (Hst : alookup s (mt_streams Lm) <> None).
+    { apply (live_disk_streams (firstn m ops) 1%N empty_meta Lm HLm); [intros x Hx; cbn in Hx; contradiction|exact Hd]. }
+    (* split the prefix of length m at i *)
+    assert (Esplit : firstn m ops = firstn i ops ++ firstn (m - i) (skipn i ops)).
+    { rewrite <- (firstn_skipn i ops) at 1. rewrite firstn_app, firstn_firstn. rewrite Nat.min_r by lia.
+      rewrite firstn_length_le by lia. reflexivity. }
+    apply run_core_of_run in HLi, HLm. rewrite Esplit, run_app in HLm. cbn [mt_core empty_meta] in *. rewrite HLi in HLm.
+    destruct (live_keys_origin _ _ _ _ s HLm Hst) as [Hin|Hex]; [left; apply Hkeys; exact Hin|right].
+    apply existsb_exists in Hex. destruct Hex as (o & Hin & Ho). apply existsb_exists. exists o. split; [|exact Ho].
+    apply (In_firstn o (m - i) (skipn i ops)). exact Hin.
+  - left. apply Hkeys. unfold take_snapshot in Hsn. cbn [sn_streams] in Hsn. rewrite (alookup_map_keys st_parts) in Hsn.
+    destruct (alookup s (c_streams (mt_core Li))); [discriminate|contradiction].
+Qed.
